@@ -155,6 +155,9 @@ func c02CaseW(c *kit.Case, withRejected, bigGaps, widths bool) {
 			cfg.WideObjStm = true
 			cfg.NoObjStm = false
 		}
+		if c.Index%8 == 2 {
+			cfg.ManyObjects = 800 + c.Rng.Intn(4000)
+		}
 		c.R.Count("programs_at_width_boundaries", 1)
 	}
 	d, err := gen.BuildDoc(c.Rng, cfg)
